@@ -464,6 +464,8 @@ func checkC14Into(c *Ctx, prefix string) {
 	}
 	_ = total
 
+	checkC14Publish(c, prefix, la)
+
 	if prefix != "C14" {
 		return
 	}
@@ -1149,4 +1151,150 @@ func boundToTx(p *Program, f *FuncSrc, call *ast.CallExpr) bool {
 	}
 	_ = info
 	return isBound(f, sel.X, 0)
+}
+
+
+// checkC14Publish: the in-progress entry is complete when it becomes visible.  Other goroutines read the
+// entry's Transaction flag in the cache-hit condition *before* they wait for the preparation, so every
+// field a hit condition reads has its final value in the literal that is inserted into the map (the flag
+// equals the caller's isTransaction) and is never written after the insertion.
+func checkC14Publish(c *Ctx, prefix string, la *lockAnalysis) {
+	p := c.P
+	r := c.Rule(prefix+".publish", "fields of a cache entry that hit conditions read before waiting are final when the entry is inserted", 2)
+	prep := p.MethodDecl(pkgGorm, "PreparedStmtDB", "prepare")
+	c.Touch(prep)
+	info := prep.Pkg.TypesInfo
+	stmtT := p.Named(pkgGorm, "Stmt")
+	// fields read through a looked-up entry inside if-conditions (before any receive)
+	readBeforeWait := map[*types.Var]bool{}
+	entryObjs := map[types.Object]bool{}
+	okObjs := map[types.Object]bool{}
+	ast.Inspect(prep.Body, func(n ast.Node) bool {
+		as, ok := n.(*ast.AssignStmt)
+		if !ok || len(as.Rhs) != 1 || len(as.Lhs) != 2 {
+			return true
+		}
+		if ix, ok := unparen(as.Rhs[0]).(*ast.IndexExpr); ok && fieldSel(info, ix.X, la.stmtsF) {
+			if id, ok := as.Lhs[0].(*ast.Ident); ok && id.Name != "_" {
+				entryObjs[info.ObjectOf(id)] = true
+			}
+			if id, ok := as.Lhs[1].(*ast.Ident); ok && id.Name != "_" {
+				okObjs[info.ObjectOf(id)] = true
+			}
+		}
+		return true
+	})
+	ast.Inspect(prep.Body, func(n ast.Node) bool {
+		ifs, ok := n.(*ast.IfStmt)
+		if !ok {
+			return true
+		}
+		// a hit condition: it tests the comma-ok result of the look-up (evaluated before any waiting)
+		isHit := false
+		ast.Inspect(ifs.Cond, func(x ast.Node) bool {
+			if id, ok := x.(*ast.Ident); ok && okObjs[info.Uses[id]] {
+				isHit = true
+			}
+			return true
+		})
+		if !isHit {
+			return true
+		}
+		ast.Inspect(ifs.Cond, func(x ast.Node) bool {
+			if sel, ok := x.(*ast.SelectorExpr); ok {
+				if root, ok := unparen(sel.X).(*ast.Ident); ok && entryObjs[info.Uses[root]] {
+					if v, _ := info.Uses[sel.Sel].(*types.Var); v != nil && v.IsField() {
+						readBeforeWait[v] = true
+					}
+				}
+			}
+			return true
+		})
+		return true
+	})
+	if len(readBeforeWait) == 0 {
+		r.Bad(prep.Name(), "hit-condition fields", prep.Body.Pos(), "no field of a cache entry is read by a hit condition; rule lost its anchor")
+		return
+	}
+	// the insertion and the literal of the inserted entry
+	var insert *ast.AssignStmt
+	var inserted types.Object
+	ast.Inspect(prep.Body, func(n ast.Node) bool {
+		if as, ok := n.(*ast.AssignStmt); ok && len(as.Lhs) == 1 && len(as.Rhs) == 1 {
+			if ix, ok := unparen(as.Lhs[0]).(*ast.IndexExpr); ok && fieldSel(info, ix.X, la.stmtsF) {
+				insert = as
+				if root := rootIdentOf(as.Rhs[0]); root != nil {
+					inserted = info.Uses[root]
+				}
+			}
+		}
+		return true
+	})
+	if insert == nil || inserted == nil {
+		r.Bad(prep.Name(), "insertion", prep.Body.Pos(), "no insertion of a named entry into the cache map found")
+		return
+	}
+	var lit *ast.CompositeLit
+	for _, l := range litsOfType(info, prep.Body, stmtT, false) {
+		// the literal that initialises the inserted variable
+		for _, d := range localDefs(prep, inserted.Name(), insert.Pos()) {
+			if containsNode(d.rhs, l) {
+				lit = l
+			}
+		}
+	}
+	// the bool parameter that says whether the caller is a transaction
+	txParam := ""
+	for _, fl := range prep.Type.Params.List {
+		for _, nm := range fl.Names {
+			if tv, ok := info.Types[fl.Type]; ok && types.Identical(tv.Type, types.Typ[types.Bool]) {
+				txParam = nm.Name
+			}
+		}
+	}
+	gs := p.Guards(prep, nil)
+	var names []string
+	for v := range readBeforeWait {
+		names = append(names, v.Name())
+	}
+	sort.Strings(names)
+	for _, name := range names {
+		var fv *types.Var
+		for v := range readBeforeWait {
+			if v.Name() == name {
+				fv = v
+			}
+		}
+		// initial value in the literal
+		var init ast.Expr
+		if lit != nil {
+			init = compositeField(lit, name)
+		}
+		okInit := init != nil
+		if okInit && name == "Transaction" {
+			okInit = txParam != "" && canon(info, init) == txParam
+		}
+		r.Check(okInit, prep.Name(), "entry."+name+" final at publication", insert.Pos(), "set in the literal that is inserted", "the in-progress entry is inserted into the cache before its "+name+" field has its final value: a goroutine that looks the text up meanwhile evaluates the hit condition on the zero value (a transaction-bound statement is handed to a caller outside the transaction, or the text is prepared twice)")
+		// no store after the insertion
+		late := token.NoPos
+		ast.Inspect(prep.Body, func(n ast.Node) bool {
+			as, ok := n.(*ast.AssignStmt)
+			if !ok {
+				return true
+			}
+			for _, l := range as.Lhs {
+				if sel, ok := unparen(l).(*ast.SelectorExpr); ok {
+					if v, _ := info.Uses[sel.Sel].(*types.Var); v == fv {
+						if root := rootIdentOf(sel.X); root != nil && info.Uses[root] == inserted {
+							if as.Pos() > insert.Pos() && gs.Reaches(insert.Pos(), func(nd ast.Node) bool { return nd == ast.Node(as) }) {
+								late = as.Pos()
+							}
+						}
+					}
+				}
+			}
+			return true
+		})
+		r.Check(late == token.NoPos, prep.Name(), "entry."+name+" not written after publication", insert.Pos(), "no store reachable from the insertion", "the published entry's "+name+" field is written after the insertion (at "+p.Pos(late)+"): concurrent look-ups read it while it changes")
+	}
 }
